@@ -8,10 +8,11 @@ use crate::diffgen::*;
 use crate::emit::{self, Tables};
 use crate::filegen::*;
 use crate::imp::{self, Outcome, RunSpec};
+use crate::mainargs::{self, MainArgs};
 use crate::prng::Rng;
 use serde_json::json;
 
-pub const HEADER: &str = "From BW Require Import SpecRun.";
+pub const HEADER: &str = "From BW Require Import SpecRun Main.";
 
 struct TFile {
     path: String,
@@ -104,9 +105,14 @@ pub fn generate_c15(rng: &mut Rng, idx: usize, _tier: Tier) -> CaseOut {
     let ignores: Vec<String> = (0..rng.below(3)).map(|_| forms(rng, &files)).filter(|g| g != "**").collect();
     let with_diff = idx % 2 == 1;
     let terminal = !with_diff;
+    // what the property says is in scope (the specification side): no globs in terminal mode = everything
     let eff_globs: Vec<String> = if globs.is_empty() && terminal { vec!["**".into()] } else { globs.clone() };
     let allow = imp::globset(&eff_globs).unwrap();
+    // what globset says about the globs as typed (the model's oracle; main.rs decides about "**" itself)
+    let typed_allow = imp::globset(&globs).unwrap();
     let ign = imp::globset(&ignores).unwrap();
+    // every twelfth case must be refused before any file is looked at: outside a repository, or a bad glob
+    let refuse = match idx % 24 { 11 => 1, 23 => 2, _ => 0 };
     // which files does the diff name
     let in_diff: Vec<bool> = files.iter().map(|_| with_diff && rng.chance(1, 2)).collect();
     let scan = !eff_globs.is_empty();
@@ -141,16 +147,27 @@ pub fn generate_c15(rng: &mut Rng, idx: usize, _tier: Tier) -> CaseOut {
     tree.push((".gitignore".into(), format!("{gitignore_pat}\n")));
     let subdirs: Vec<String> = files.iter().filter(|f| !f.hidden).filter_map(|f| f.path.rfind('/').map(|i| f.path[..i].to_string())).collect();
     let cwd = if !subdirs.is_empty() && rng.chance(1, 3) { subdirs[rng.below(subdirs.len())].clone() } else { String::new() };
-    let mut args = vec!["list".to_string()];
-    args.extend(globs.iter().cloned());
-    for i in &ignores {
-        args.push("--ignore".into());
-        args.push(i.clone());
+    let mut margs = MainArgs { list: true, ..Default::default() };
+    // --ignore may be typed before or after the subcommand (F12: typed on both sides, the earlier ones are dropped)
+    for g in &ignores {
+        if rng.chance(2, 3) { margs.ignores.push(g.clone()) } else { margs.ign_post.push(g.clone()) }
     }
-    let run = CliRun { files: tree.clone(), args: args.clone(), stdin: if with_diff { Some(diff.clone()) } else { None }, cwd: cwd.clone(), ..Default::default() };
+    // (positional globs can only follow the subcommand: typed before it, `list` itself would be read as a glob)
+    margs.list_globs = globs.clone();
+    if refuse == 2 {
+        let bad = ["[", "a{b", "**[!"][rng.below(3)].to_string();
+        // (a bad --ignore glob goes where main will see it)
+        if rng.chance(1, 2) { if margs.ign_post.is_empty() { margs.ignores.push(bad) } else { margs.ign_post.push(bad) } } else { margs.list_globs.push(bad) }
+    }
+    let args = margs.argv(rng);
+    let stdin = if with_diff { Some(diff.clone()) } else { None };
+    let run = CliRun { files: tree.clone(), args: args.clone(), stdin: stdin.clone(), cwd: cwd.clone(), no_root: refuse == 1, ..Default::default() };
     let c = cli::run(&run);
-    let lo = cli::interpret_list(&c);
     // ---- the model's case ----
+    // (globset's verdicts on the --ignore globs of each side; bad globs are left out: the run stops before matching)
+    let good = |v: &Vec<String>| -> Vec<String> { v.iter().filter(|g| globset::Glob::new(g).is_ok()).cloned().collect() };
+    let ign_pre = imp::globset(&good(&margs.ignores)).unwrap();
+    let ign_post = imp::globset(&good(&margs.ign_post)).unwrap();
     let spec = RunSpec { files: files.iter().map(|f| (f.path.clone(), f.text.clone())).collect(), ..Default::default() };
     let (_, comments, _) = fcases(&spec);
     let rfiles: Vec<String> = files.iter().enumerate().map(|(k, f)| {
@@ -159,11 +176,14 @@ pub fn generate_c15(rng: &mut Rng, idx: usize, _tier: Tier) -> CaseOut {
             let raw = f.text.get(cm.lo..cm.hi).unwrap_or("");
             format!("mkspan {} {} {} {}", cm.lo, cm.hi, fam.map(|x| kind_of(x, raw, cm.group)).unwrap_or(K_RAW), cm.group)
         }).collect();
-        format!("(mkrfile' {} {} [{}] {} true {} {})", cstr(&f.path), cstr(&f.text), spans.join("; "), cbool(!f.hidden && !f.gitignored), cbool(allow.is_match(&f.path)), cbool(ign.is_match(&f.path)))
+        format!("(mkmfile {} {} [{}] {} true {} {} {})", cstr(&f.path), cstr(&f.text), spans.join("; "), cbool(!f.hidden && !f.gitignored), cbool(typed_allow.is_match(&f.path)), cbool(ign_pre.is_match(&f.path)), cbool(ign_post.is_match(&f.path)))
     }).collect();
-    let rcase = format!("(mkrcase [{}] {} {} [] [] [] {} [])", rfiles.join("; "), if with_diff { format!("(Some {})", cstr(&diff)) } else { "None".into() }, cbool(scan), Tables::default().coq());
-    let coq = format!("(check_scope {} {} (Some [{}]) true)", rcase, emit::lobs(&lo), exp.join("; "));
-    let mut tags = vec![format!("globs:{}", globs.len()), format!("ignores:{}", ignores.len()), format!("diff:{with_diff}"), format!("in-scope:{in_scope_count}"), format!("cwd-sub:{}", !cwd.is_empty())];
+    let coq = format!(
+        "(check_scope_main {} [{}] {} [] {} {} true)",
+        margs.coq(&stdin, refuse != 1), rfiles.join("; "), Tables::default().coq(), mainargs::mobs_coq(&c, true),
+        if refuse != 0 { "None".to_string() } else { format!("(Some [{}])", exp.join("; ")) }
+    );
+    let mut tags = vec![mainargs::outcome_tag(&c, true), format!("ignore-split:{}", !margs.ignores.is_empty() && !margs.ign_post.is_empty()), format!("globs:{}", globs.len()), format!("ignores:{}", ignores.len()), format!("diff:{with_diff}"), format!("in-scope:{in_scope_count}"), format!("cwd-sub:{}", !cwd.is_empty())];
     tags.push(format!("hidden-or-gitignored:{}", files.iter().filter(|f| f.hidden || f.gitignored).count()));
     if files.iter().any(|f| f.path.starts_with("b/")) {
         tags.push("dir-b".into());
@@ -267,9 +287,44 @@ pub fn generate_c16(rng: &mut Rng, idx: usize, _tier: Tier) -> CaseOut {
         tags.push(format!("bad-mapping:{bad:?}"));
         cli_json = json!({"args": ["-E", format!("qq={bad}")], "exit": c.code, "stderr": c.stderr});
     }
-    let coq = format!("(check_scope {} {} (Some [{}]) {})", rcase, emit::lobs(&out.list), exp.join("; "), cbool(extra));
+    let mut coq = format!("(check_scope {} {} (Some [{}]) {})", rcase, emit::lobs(&out.list), exp.join("; "), cbool(extra));
     if let Outcome::Err(_, _) = &out.list {
         tags.push("outcome:error".into());
+    }
+    if idx % 3 == 1 && idx % 10 != 9 {
+        // the same question through the real binary and the model of main.rs / flags.rs: -E values as typed
+        // (padding, a superseded earlier mapping of the same key), on either side of `list`
+        let mut m = MainArgs { list: true, ..Default::default() };
+        let post_side = rng.chance(1, 2);
+        let mut typed: Vec<String> = Vec::new();
+        for (k, v) in &ext {
+            if rng.chance(1, 3) {
+                // superseded: the later mapping of a key wins
+                let other = all_suffixes[rng.below(all_suffixes.len())].0;
+                typed.push(format!("{k}={other}"));
+            }
+            typed.push(match rng.below(3) { 0 => format!("{k}={v}"), 1 => format!(" {k} = {v} "), _ => format!("{k}=\t{v}") });
+        }
+        if post_side { m.ext_post = typed } else { m.ext_raw = typed }
+        let mut split = false;
+        // (only for unregistered keys: with the mapping dropped the file is then not parsed at all, and the
+        // comment spans recorded under the intended grammar play no part)
+        if !ext.is_empty() && ext.iter().all(|(k, _)| !all_suffixes.iter().any(|(s, _)| s == k)) && rng.chance(1, 3) {
+            // an unrelated mapping on the other side of the subcommand (F12 when the needed one is typed first)
+            let unrelated = "unrelated=py".to_string();
+            if post_side { m.ext_raw.push(unrelated) } else { m.ext_post.push(unrelated) }
+            split = true;
+        }
+        let args = m.argv(rng);
+        let c = cli::run(&CliRun { files: vec![(path.clone(), text.clone())], args: args.clone(), stdin: spec.diff.clone(), ..Default::default() });
+        coq = format!(
+            "(check_scope_main {} [(mkmfile {} {} [{}] true true false false false)] {} [] {} (Some [{}]) true)",
+            m.coq(&spec.diff, true), cstr(&path), cstr(&text), spans.join("; "), Tables::default().coq(), mainargs::mobs_coq(&c, true), exp.join("; ")
+        );
+        tags.push("via:cli".into());
+        tags.push(format!("ext-split:{split}"));
+        tags.push(mainargs::outcome_tag(&c, true));
+        cli_json = json!({"args": args, "exit": c.code, "stdout": c.stdout, "stderr": c.stderr});
     }
     CaseOut {
         coq,
